@@ -110,6 +110,10 @@ func (n *RaftNode) Add(event []byte) (*balloon.Snapshot, error) {
 // As a result, it returns a bulk of shapshots, but previously it sends each snapshot
 // of the bulk to the agents channel, in order to be published/queried.
 func (n *RaftNode) AddBulk(bulk [][]byte) ([]*balloon.Snapshot, error) {
+	if len(bulk) == 0 {
+		// the FSM cannot apply an empty command: never replicate one
+		return nil, errors.New("empty bulk: there are no events to add")
+	}
 	// Hash events
 	var eventHashBulk []hashing.Digest
 	for _, event := range bulk {
